@@ -782,8 +782,14 @@ func runFuzz(id string, c checkCfg, ft fuzzTarget) (execs int64, crash string, o
 	defer cancel()
 	cacheDir := filepath.Join(root, "evidence", "tmp", id, "fuzzcache")
 	_ = os.MkdirAll(cacheDir, 0o755)
-	cmd := exec.CommandContext(ctx, "go", "test", "-tags", "verif", "-vet=off", "-run", "^$", "-fuzz", "^"+ft.Target+"$",
-		"-fuzztime", strconv.Itoa(ft.Seconds)+"s", "-test.fuzzcachedir", cacheDir, c.Pkg)
+	args := []string{"test", "-tags", "verif", "-vet=off"}
+	if alt := os.Getenv("VERIF_REPO"); alt != "" {
+		// build() has written the alternative go.mod for this check
+		args = append(args, "-modfile", filepath.Join(root, "bin", "alt-"+strings.ToLower(id)+".mod"))
+	}
+	// the package must precede -test.fuzzcachedir: that is a test-binary flag and ends go's own flag parsing
+	args = append(args, "-run", "^$", "-fuzz", "^"+ft.Target+"$", "-fuzztime", strconv.Itoa(ft.Seconds)+"s", c.Pkg, "-test.fuzzcachedir", cacheDir)
+	cmd := exec.CommandContext(ctx, "go", args...)
 	cmd.Dir = root
 	cmd.Env = append(goEnv(), "VERIF_FUZZING=1")
 	var buf bytes.Buffer
